@@ -108,6 +108,13 @@ class ItemsObj:
         self.mapval = mapval
 
 
+class SuperProxy:
+    """super() inside a method: attribute lookup continues after `cls` in the MRO of type(self)"""
+
+    def __init__(self, cls, selfval):
+        self.cls, self.selfval = cls, selfval
+
+
 class SymbolicFile:
     """a text file object whose content is arbitrary (fp.read() is a fresh string)"""
 
